@@ -14,3 +14,19 @@ MUTANTS = [
     dict(id="txin-deser-vout-slice", prop="C05", file="src/bits/tx.py",
          old="vout = txin_[32:36]", new="vout = txin_[32:35]"),
 ]
+MUTANTS += [
+    dict(id="b58-enc-prepend-order", prop="C07", file="src/bits/base58.py",
+         old="encoded = BITCOIN_ALPHABET[idx : idx + 1] + encoded", new="encoded = encoded + BITCOIN_ALPHABET[idx : idx + 1]"),
+    dict(id="b58-dec-pow", prop="C07", file="src/bits/base58.py",
+         old="result += BITCOIN_ALPHABET_MAP[byte] * (58**idx)", new="result += BITCOIN_ALPHABET_MAP[byte] * (58**(idx+1))"),
+    dict(id="b58-dec-no-lstrip", prop="C07", file="src/bits/base58.py",
+         old='data = data.lstrip(b"1")', new='data = data.lstrip(b"")'),
+    dict(id="b58-check-3bytes", prop="C07", file="src/bits/base58.py",
+         old="if checksum != checksum_check:", new="if checksum[:3] != checksum_check[:3]:"),
+    dict(id="b58-check-slice5", prop="C07", file="src/bits/base58.py",
+         old="payload = decoded_addr[:-4]", new="payload = decoded_addr[:-5]"),
+    dict(id="b58-enc-zeros", prop="C07", file="src/bits/base58.py",
+         old="return BITCOIN_ALPHABET[0:1] * zeros + encoded", new="return BITCOIN_ALPHABET[0:1] * newlen + encoded"),
+    dict(id="b58-dec-256", prop="C07", file="src/bits/base58.py",
+         old="result, byte = divmod(result, 256)", new="result, byte = divmod(result, 255)"),
+]
